@@ -854,7 +854,7 @@ def check_case(rec, case):
 
 
 def gen_cases(rec, rng, tier):
-    per = 40 if tier == 'thorough' else 10
+    per = 150 if tier == 'thorough' else 10
     for fam in FAMILIES:
         k = per * (2 if fam in ('language_from_words', 'product', 'chomsky') else 1)
         if fam == 'dfa2regexp':
